@@ -1571,6 +1571,15 @@ int64_t ExpressionEvaluator::evaluate_function_call_impl(const ASTNode *node) {
         }
     }
 
+    // The static locals of a method belong to the method of the receiver's
+    // type ("A::bump", "Box<int>::bump"): impls of different types, the
+    // instantiations of a generic impl and a plain function that happens to
+    // have the same name each keep their own.  type_name is the implementing
+    // type however the receiver is reached (value, pointer, self, interface)
+    if (is_method_call && func && callee_static_namespace.empty()) {
+        callee_static_namespace = type_name + "::" + node->name;
+    }
+
     if (!func) {
         // 組み込み関数のチェック
         if (node->name == "hex" && !is_method_call) {
